@@ -691,6 +691,9 @@ class FileTemplate:
         head, tail = os.path.split(output)
         tail = tail.replace(".", "_")
         tail = tail.replace("#", "HASH")
+        # The datastore treats everything after a # in a stored path as a
+        # fragment, so it can not be allowed in the directory part either.
+        head = head.replace("#", "HASH")
         output = os.path.join(head, tail)
 
         # Complain if we were meant to use a component
